@@ -1,10 +1,10 @@
 package scen
 
 import (
-	"hash/crc32"
 	"crypto/ed25519"
 	"crypto/sha1"
 	"fmt"
+	"hash/crc32"
 	"net"
 
 	"dsim/benc"
